@@ -17,7 +17,7 @@ META = dict(
 
 def mk(wl, k, sticky, short):
     return H("C16.S1.w%d.k%d.s%d.h%d" % (wl, k, sticky, short), "C16", src="harness/C16/s1_fault.c", units=libhdf_units(),
-             models=["memio", "herr", "memloops", "printf"], defs={"WL": wl, "K": k, "STICKY": sticky, "SHORT": short, "MEMIO_DISK_SZ": 4096},
+             models=["memio", "herr", "memloops", "printf"], defs={"WL": wl, "K": k, "STICKY": sticky, "SHORT": short, "MEMIO_DISK_SZ": 8192},
              unwind=5000, kind="S", timeout=600, symbolic="24 payload bytes", bound="fault index k=%d (%s), short amount %d" % (k, "sticky" if sticky else "single", short),
              group="C16.S1.w%d" % wl, hang_is_violation=True)
 
